@@ -74,3 +74,4 @@ LEVEL_NOTE = ("Trusted: Lean kernel; axioms propext/Classical.choice/Quot.sound 
               "a_first alternation as such (taken as an input; theorems quantify over all schedules), timer granularity, u64 overflow of the back-off product, the spec oracle "
               "for merge prints only observations on which all allowed behaviours agree. Readings: first init failure = no stream; a policy with initial > max waits initial "
               "first; merge drops the not-yet-polled queued items of the input that did not end (documented behaviour of merge.rs).")
+SUBCHECKS = ["C12W"]
